@@ -32,7 +32,15 @@ SPEC = PropertySpec(
 )
 def r27_1(ctx, rep):
     R = "R27.1"
+    from ..pyutil import renamed_copy
     fn = ctx.func(AST, "Class._extend", R)
+    roles = {}
+    for lp in fn.body:
+        if isinstance(lp, ast.For) and isinstance(lp.target, ast.Name) and ".classes" in norm(lp.iter):
+            roles[lp.target.id] = "class_name"
+    if len(fn.args.args) > 1:
+        roles[fn.args.args[1].arg] = "other"
+    fn = renamed_copy(fn, {k: v for k, v in roles.items() if k != v})
     # everything a class node carries (its state attributes in Class.__init__) except its identity, the nested classes that
     # the merge recurses into, and the parent link that is refreshed afterwards
     init = ctx.func(AST, "Class.__init__", R)
@@ -89,15 +97,27 @@ def r27_1(ctx, rep):
 @SPEC.rule("R27.2", "placeholder packages for `within` are empty packages named by the within path, the file's classes go into the innermost one, and Tree.extend refreshes parent links")
 def r27_2(ctx, rep):
     R = "R27.2"
+    from ..pyutil import renamed_copy
     fn = ctx.func(PARSER, "file_to_tree", R)
+    roles = {}
+    for st in fn.body:
+        if isinstance(st, ast.Assign) and isinstance(st.targets[0], ast.Name):
+            if isinstance(st.value, ast.Call) and (call_name(st.value) or "").endswith("Tree"):
+                roles[st.targets[0].id] = "root"
+            elif isinstance(st.value, ast.Name) and roles.get(st.value.id) == "root":
+                roles[st.targets[0].id] = "insert_node"
+    if len(fn.args.args) > 0:
+        roles[fn.args.args[0].arg] = "f"
+    fn = renamed_copy(fn, {k: v for k, v in roles.items() if k != v})
     site = PARSER + ":file_to_tree"
     ok = False
     for lp in walk_local(fn):
         if isinstance(lp, ast.For) and "within[0].to_tuple()" in norm(lp.iter) and isinstance(lp.target, ast.Name):
             p = lp.target.id
             t = [norm(s) for s in lp.body]
-            ok = any(x.endswith("= ast.Class(name=%s, type='package')" % p) for x in t) and any(x.startswith("insert_node.classes[%s] =" % p) for x in t) \
-                and any(x.startswith("insert_node = ") for x in t)
+            made = [x_.targets[0].id for x_ in lp.body if isinstance(x_, ast.Assign) and isinstance(x_.targets[0], ast.Name)
+                    and norm(x_.value) == "ast.Class(name=%s, type='package')" % p]
+            ok = bool(made) and any(x == "insert_node.classes[%s] = %s" % (p, made[0]) for x in t) and any(x == "insert_node = %s" % made[0] for x in t)
     rep.ob(R, site, "within placeholders", ok, "for each name of the within path an empty package is created and entered")
     t = [norm(s) for s in fn.body]
     rep.ob(R, site, "classes into innermost package", "insert_node.classes.update(f.classes)" in t, "the file's classes are inserted in the innermost within package")
